@@ -491,6 +491,39 @@ func c16Check(c c16Case) *evid.Fail {
 					w.up[hh] = true
 				}
 			}
+		case "sick_nodes":
+			// the control connection is lost while every node accepts connections, STARTUP and REGISTER but fails the
+			// proxy's system.local query (overloaded, still starting, no permission): no control connection exists, so an
+			// outage must be reported, must never read zero and must keep growing until a node answers again
+			if len(w.live()) == 0 {
+				continue
+			}
+			kind := []string{"overloaded", "unauthorized", "server_error", "bootstrapping"}[a.N%4]
+			for k := 0; k < 600; k++ {
+				e.Cluster.QueueInternal("system_local", fakecass.Outcome{Kind: kind})
+			}
+			for _, cn := range e.Cluster.RegisteredConns() {
+				cn.Close()
+			}
+			deadline := time.Now().Add(posWait)
+			for e.Proxy.OutageDuration() == 0 {
+				if time.Now().After(deadline) {
+					e.Cluster.ClearInternal()
+					return evid.Failf("outage-not-reported", "the control connection is lost and every node fails the system.local query (%s), but OutageDuration() is 0 after %v", kind, posWait)
+				}
+				time.Sleep(time.Millisecond)
+			}
+			prev := e.Proxy.OutageDuration()
+			for t0 := time.Now(); time.Since(t0) < time.Duration(60+a.N%80)*time.Millisecond && e.Cluster.InternalPending() > 0; {
+				time.Sleep(500 * time.Microsecond)
+				d := e.Proxy.OutageDuration()
+				if d < prev {
+					e.Cluster.ClearInternal()
+					return evid.Failf("outage-reset-without-control-connection", "OutageDuration() went from %v to %v although no node has answered the system.local query since the control connection was lost (%s)", prev, d, kind)
+				}
+				prev = d
+			}
+			e.Cluster.ClearInternal()
 		case "backoff":
 			// one node refuses connections for a while: attempts keep coming, never faster than the minimum delay
 			if len(w.live()) < 2 || !w.member[h] || !w.up[h] {
@@ -541,7 +574,7 @@ func c16Gen(rt *rapid.T) c16Case {
 	c := c16Case{Hosts: rapid.IntRange(1, 4).Draw(rt, "hosts"), Conns: rapid.IntRange(1, 2).Draw(rt, "conns")}
 	n := rapid.IntRange(1, evid.Pick(8, 15)).Draw(rt, "nactions")
 	ops := []string{"add_node", "remove_node", "restart_node", "drop_pooled", "drop_pooled", "drop_control", "drop_all", "drop_several", "silence_pooled", "silence_control",
-		"silence_inflight", "outage", "backoff", "event_then_failover", "partial_pool_loss", "partial_pool_loss"}
+		"silence_inflight", "outage", "backoff", "event_then_failover", "partial_pool_loss", "partial_pool_loss", "sick_nodes"}
 	added := 0
 	for i := 0; i < n; i++ {
 		a := c16Action{Op: ops[rapid.IntRange(0, len(ops)-1).Draw(rt, "op")], Host: rapid.IntRange(0, 7).Draw(rt, "host"), Conn: rapid.IntRange(0, 3).Draw(rt, "conn"), N: rapid.IntRange(0, 400).Draw(rt, "n")}
@@ -722,7 +755,7 @@ func TestC16(t *testing.T) {
 				labels = append(labels, "after-failed-use:"+a.Op)
 			}
 			switch a.Op {
-			case "add_node", "remove_node", "restart_node", "event_then_failover", "outage", "backoff":
+			case "add_node", "remove_node", "restart_node", "event_then_failover", "outage", "backoff", "sick_nodes":
 				membership = true
 			}
 			if strings.HasPrefix(a.Op, "drop") || strings.HasPrefix(a.Op, "silence") || a.Op == "event_then_failover" {
